@@ -68,3 +68,43 @@ def c15_m_round_total(o):
     o.flat = [z3.IntVal(1)]
     o.no_panic()
     o.reachable("headroom_after_max", z3.And(y.e == c03.MAXY, d.e == 365, ts + off.e >= DAY))
+
+
+@obligation(prop="C04", tier="quick", timeout=600, probe="display_total",
+            desc="Display and Debug of DateTime<FixedOffset> format the wall-clock reading obtained without panicking for EVERY UTC date-time and EVERY offset, including the headroom day beyond MIN/MAX at the range ends (they must use the non-panicking wall-clock view)",
+            bounds="all dates x all times of day x all offsets in (-24h, 24h); the NaiveDateTime / FixedOffset formatters themselves are contracts that return normally")
+def c04_m_display_total(o):
+    contracts(o)
+    o.summarize_raw(r"^<NaiveDateTime as (std::fmt::)?(Display|Debug)>::fmt$", lambda ex, st, a: (st, EnumV("Result", 0, {0: [Agg("tuple", "()", [])]})))
+    o.summarize_raw(r"^<(<Tz as TimeZone>::Offset|FixedOffset|<FixedOffset as TimeZone>::Offset) as (std::fmt::)?(Display|Debug)>::fmt$", lambda ex, st, a: (st, EnumV("Result", 0, {0: [Agg("tuple", "()", [])]})))
+    o.summarize_raw(r"Formatter(::)?<'_>(::| as std::fmt::Write>::| as Write>::)write_(char|str)$", lambda ex, st, a: (st, EnumV("Result", 0, {0: [Agg("tuple", "()", [])]})))
+    dt, y, d, ts, off = dt_input(o)
+    f = OpaqueV("formatter")
+    o.call("<DateTime<FixedOffset> as Display>::fmt", o.ref(dt), f, name="display")
+    o.call("<DateTime<FixedOffset> as Debug>::fmt", o.ref(dt), f, name="debug")
+    o.flat = [z3.IntVal(1)]
+    o.no_panic()
+    o.reachable("headroom_after_max", z3.And(y.e == c03.MAXY, d.e == 365, ts + off.e >= DAY))
+
+
+@obligation(prop="C15", tier="quick", timeout=900, probe="with_time_range",
+            desc="DateTime<FixedOffset>::with_time never builds an out-of-range value: whenever it returns Single(dt), the stored UTC reading of dt lies on a representable date (year in [-262143, 262142]) -- also when the wall clock of the receiver lies in the headroom day beyond MIN/MAX; and it never panics",
+            bounds="all UTC date-times x all offsets in (-24h, 24h) x all replacement times of day",
+            outside="Local and other zones with gaps/folds (only FixedOffset is instantiated)")
+def c15_m_with_time_in_range(o):
+    contracts(o)
+    dt, y, d, ts, off = dt_input(o)
+    t2, ts2, tf2 = c07.time_input(o, "n")
+    r = o.call("DateTime::<FixedOffset>::with_time", o.ref(dt), t2, name="with_time")
+    # MappedLocalTime: Single = 0, Ambiguous = 1, None = 2 (declaration order)
+    single = r.disc == 0
+    res = r.payload[0][0]
+    yof = res.fields[0].fields[0].fields[0].e
+    Yr = z3.Int("Ywt")
+    Or_, Fr = z3.Int("Owt"), z3.Int("Fwt")
+    o.require(z3.And(yof == Yr * 8192 + Or_ * 16 + Fr, Fr >= 0, Fr < 16, Or_ >= 0, Or_ < 512))
+    o.flat = [z3.If(single, 1, 0), z3.If(single, Yr, 0)]
+    o.no_panic()
+    o.reachable("headroom_receiver", z3.And(y.e == c03.MAXY, d.e == 365, ts + off.e >= DAY))
+    o.reachable("single", single)
+    o.claim("single_result_is_in_range", z3.Implies(single, z3.And(Yr >= c03.MINY, Yr <= c03.MAXY)))
